@@ -254,9 +254,10 @@ def Inv (s : Option LHState) (f : Option CfgV) : Prop :=
   | some st, some cfg => fromConfig cfg = .ok st.tbl ∧ ∀ t, fromConfig st.prev = .ok t → t = st.tbl
   | _, _ => False
 
-theorem inv_step (s : Option LHState) (f : Option CfgV) (op : CfgOp) (h : Inv s f) :
-    Inv (cfgRun1 s op).1 (inForce1 f op) := by
+theorem inv_step (s : Option LHState) (f : Option CfgV) (op : CfgOp) (h : Inv s f)
+    (hr : op.reachesBlock = true) : Inv (cfgRun1 s op).1 (inForce1 f op) := by
   cases op with
+  | reloadEarlierErr c => cases hr
   | load c =>
     simp only [cfgRun1, cfgStep, Bool.true_or, if_true, inForce1]
     cases hc : fromConfig c with
@@ -287,10 +288,11 @@ theorem inv_step (s : Option LHState) (f : Option CfgV) (op : CfgOp) (h : Inv s 
           subst this
           simpa [Inv, ht] using h2
 
-theorem inv_run (ops : List CfgOp) (s : Option LHState) (f : Option CfgV) (h : Inv s f) :
-    Inv (cfgRun s ops) (inForce f ops) := by
+theorem inv_run (ops : List CfgOp) (s : Option LHState) (f : Option CfgV) (h : Inv s f)
+    (hr : ∀ op ∈ ops, op.reachesBlock = true) : Inv (cfgRun s ops) (inForce f ops) := by
   induction ops generalizing s f with
   | nil => exact h
-  | cons op rest ih => exact ih _ _ (inv_step s f op h)
+  | cons op rest ih =>
+    exact ih _ _ (inv_step s f op h (hr op (by simp))) (fun o ho => hr o (by simp [ho]))
 
 end Nebula.Lemmas.CalcRemoteCfg
